@@ -61,6 +61,17 @@ def gen_case(rng, tier, idx):
 
 # --------------------------------------------------------------------------------------------- connect
 
+USED = []       # (what, signature object that was handed to the component, signature rebuilt from the same parameters)
+
+
+def reported(port):
+    """The standard signature rebuilt from the parameters the port itself reports."""
+    if hasattr(port, "granularity"):
+        return wishbone.Signature(addr_width=port.addr_width, data_width=port.data_width, granularity=port.granularity,
+                                  features=port.features)
+    return csr.Signature(addr_width=port.addr_width, data_width=port.data_width)
+
+
 def build_component(kind, rng, P):
     """Returns (component, [(port, complementary interface factory, role)])."""
     if kind == "mux":
@@ -110,6 +121,21 @@ def build_component(kind, rng, P):
         aw = rng.choice([0, 1, 4, 10, 30])
         P.update(aw=aw, dw=dw, gran=gran, features=sorted(feats))
         c = wishbone.Decoder(addr_width=aw, data_width=dw, granularity=gran, features=spell_features(rng, feats))
+        # subordinates added before the port is looked at: each keeps the signature it was built with
+        for i in range(rng.choice([0, 1, 2, 3])):
+            saw = rng.randint(0, max(0, aw - 2))
+            if saw + (dw // gran).bit_length() - 1 < 1:
+                continue
+            sfe = frozenset(f for f in FEATS if rng.random() < 0.6 and (f in feats or f in ("lock", "cti", "bte")))
+            sub = wishbone.Interface(addr_width=saw, data_width=dw, granularity=gran, features=spell_features(rng, sfe),
+                                     path=(f"s{i}",))
+            sub.memory_map = MemoryMap(addr_width=saw + (dw // gran).bit_length() - 1, data_width=gran)
+            try:
+                c.add(sub, name=f"s{i}")
+            except ValueError:
+                pass
+            USED.append((f"subordinate bus after Decoder.add()", sub.signature,
+                         wishbone.Signature(addr_width=saw, data_width=dw, granularity=gran, features=sfe)))
         return c, [(c.bus, wishbone.Signature(addr_width=aw, data_width=dw, granularity=gran, features=feats), "target")]
     if kind == "wbbridge":
         cdw = rng.choice([8, 16, 32, 64])
@@ -133,8 +159,11 @@ def build_component(kind, rng, P):
         P.update(aw=aw, dw=dw, gran=gran, features=sorted(feats))
         c = wishbone.Arbiter(addr_width=aw, data_width=dw, granularity=gran, features=spell_features(rng, feats))
         for i in range(rng.randint(1, 3)):
-            c.add(wishbone.Interface(addr_width=aw, data_width=dw, granularity=gran, features=feats | {"err", "rty"} & feats,
-                                     path=(f"i{i}",)))
+            ife = feats | {"err", "rty"} & feats
+            ini = wishbone.Interface(addr_width=aw, data_width=dw, granularity=gran, features=ife, path=(f"i{i}",))
+            c.add(ini)
+            USED.append(("initiator bus after Arbiter.add()", ini.signature,
+                         wishbone.Signature(addr_width=aw, data_width=dw, granularity=gran, features=ife)))
         return c, [(c.bus, wishbone.Signature(addr_width=aw, data_width=dw, granularity=gran, features=feats), "initiator")]
     raise AssertionError(kind)
 
@@ -153,10 +182,34 @@ class Wrapper(Elaboratable):
 
 def run_connect(case, rng, mon):
     P = {"kind": "connect", "cls": case["cls"]}
+    del USED[:]
     comp, ports = build_component(case["cls"], rng, P)
     conns = []
     ok = True
+    for what, used, ref in USED:
+        # a signature keeps its parameters and members while the interface it describes is in use
+        mon.counters["signature_unchanged_by_use"] += 1
+        if not (used == ref) or dict(used.members) != dict(ref.members):
+            ok = False
+            mon.violations.append({"monitor": "signature_unchanged_by_use", "mechanism": f"{case['cls']}:signature-changed-by-use",
+                                   "msg": f"{what}: signature is now {used!r} (members {sorted(used.members)}), it was built as "
+                                          f"{ref!r}", "detail": {"params": P}})
     for port, sig, role in ports:
+        # the port reports the parameters it was built with: rebuilding the standard signature from what the port
+        # itself reports must give the same signature as building it from the constructor arguments
+        mon.counters["port_reports_its_parameters"] += 1
+        try:
+            rep = reported(port)
+            same = rep == sig and dict(rep.members) == dict(sig.members)
+        except Exception as e:
+            rep, same = e, False
+        if not same:
+            ok = False
+            mon.violations.append({"monitor": "port_reports_its_parameters", "mechanism": f"{case['cls']}:port-parameters",
+                                   "msg": f"{case['cls']}'s bus port reports parameters giving {rep!r}; it was built with {sig!r}",
+                                   "detail": {"params": P}})
+        elif rng.random() < 0.5:
+            sig = rep
         if role == "target":
             other = sig.create(path=("init",))           # standard initiator-side interface
             pair = (other, port)
@@ -256,12 +309,74 @@ def expected_members(cls, params):
     return {"i": 1, "o": 1, "oe": 1}
 
 
+def use_signature(cls, p, sg, rng):
+    if cls == "wishbone.Signature":
+        aw, dw, g, feats = p
+        if aw > 64:
+            return 0
+        intf = sg.create(path=("used",))
+        how = rng.choice(["sub", "sub", "init", "both"])
+        if how in ("sub", "both") and aw + (dw // g).bit_length() - 1 >= 1:
+            intf.memory_map = MemoryMap(addr_width=aw + (dw // g).bit_length() - 1, data_width=g)
+            dfe = (feats & {"err", "rty", "stall"}) | frozenset(f for f in FEATS if rng.random() < 0.3)
+            dec = wishbone.Decoder(addr_width=aw + 2, data_width=dw, granularity=g, features=dfe)
+            dec.add(intf, name="used")
+            Fragment.get(dec, None)
+        if how in ("init", "both"):
+            arb = wishbone.Arbiter(addr_width=aw, data_width=dw, granularity=g,
+                                   features=frozenset(f for f in feats if rng.random() < 0.7))
+            arb.add(intf)
+            arb.add(sg.create(path=("used2",)))
+            Fragment.get(arb, None)
+        return 1
+    if cls == "csr.Signature":
+        aw, dw = p
+        if aw > 64:
+            return 0
+        intf = sg.create(path=("used",))
+        intf.memory_map = MemoryMap(addr_width=aw, data_width=dw)
+        dec = csr.Decoder(addr_width=aw + 1, data_width=dw)
+        dec.add(intf, name="used")
+        Fragment.get(dec, None)
+        return 1
+    if cls == "csr.Element.Signature":
+        w, a = p
+        if w == 0:
+            return 0
+        mm = MemoryMap(addr_width=12, data_width=8)
+        el = sg.create(path=("used",))
+
+        class Holder(wiring.Component):
+            def __init__(self):
+                super().__init__({"element": Out(sg)})
+        h = Holder()
+        mm.add_resource(h, name="used", size=(w + 7) // 8)
+        Fragment.get(csr.Multiplexer(mm), None)
+        return 1
+    if cls == "event.Source.Signature":
+        src = sg.create(path=("used",))
+        em = event.EventMap()
+        em.add(src)
+        Fragment.get(event.Monitor(em, trigger=rng.choice(["level", "rise", "fall"])), None)
+        return 1
+    return 0
+
+
 def run_sig(case, rng, mon):
     cls = case["cls"]
     g = grid(cls, rng)
     sigs = [(p, f()) for p, f in g]
     twins = [(p, f()) for p, f in g]           # independently constructed, equal parameters
     mism = []
+    used = 0
+    for p, sg in rng.sample(sigs, min(len(sigs), 48)):
+        # put some of the signatures to use before they are compared: a signature describes an interface, it is
+        # not altered by what the interface is then handed to
+        try:
+            used += use_signature(cls, p, sg, rng)
+        except (ValueError, TypeError):
+            pass
+    mon.count("signatures_used_before_comparison", used)
     for (p, s), (_p, t) in zip(sigs, twins):
         # create() round-trip
         mon.counters["create_roundtrip"] += 1
